@@ -173,6 +173,7 @@ type Ctx struct {
 	memSorts  map[string]string
 	prune     bool
 	usedPures map[string]bool
+	assumedClauses map[string]bool
 }
 
 func (c *Ctx) freshName(prefix string) string {
@@ -293,7 +294,7 @@ func (c *Ctx) zero(t types.Type) string {
 		}
 		return "(" + strings.Join(parts, " ") + ")"
 	case *types.Array:
-		return "((as const " + c.reg.SortOf(t) + ") " + c.zero(u.Elem()) + ")"
+		return c.zeroArrayConst(c.reg.SortOf(u.Elem()), c.zero(u.Elem()))
 	}
 	switch c.reg.SortOf(t) {
 	case "Int":
@@ -342,13 +343,13 @@ func (c *Ctx) wf(v string, t types.Type, top string) string {
 			return ii.rangeFact(v)
 		}
 	case "Addr":
-		return "(<= (root " + v + ") " + top + ")"
+		return "(and (<= (root " + v + ") " + top + ") (< (- 100000) (root " + v + ")))"
 	case "Slice":
-		return "(and (<= (root (sarr " + v + ")) " + top + ") (<= 0 (soff " + v + ")) (<= 0 (slen " + v + ")) (<= (slen " + v + ") (scap " + v + ")) (=> (= (sarr " + v + ") nil) (= " + v + " nil_slice)))"
+		return "(and (<= (root (sarr " + v + ")) " + top + ") (< (- 100000) (root (sarr " + v + "))) (<= 0 (soff " + v + ")) (<= 0 (slen " + v + ")) (<= (slen " + v + ") (scap " + v + ")) (=> (= (sarr " + v + ") nil) (= " + v + " nil_slice)))"
 	case "Iface":
-		return "(and (<= (root (ipay " + v + ")) " + top + ") (>= (itag " + v + ") 0) (=> (= (itag " + v + ") 0) (= " + v + " nil_iface)))"
+		return "(and (<= (root (ipay " + v + ")) " + top + ") (< (- 100000) (root (ipay " + v + "))) (>= (itag " + v + ") 0) (=> (= (itag " + v + ") 0) (= " + v + " nil_iface)))"
 	case "Func":
-		return "(and (<= (root (fenv " + v + ")) " + top + ") (>= (fid " + v + ") 0) (=> (= (fid " + v + ") 0) (= " + v + " nil_func)))"
+		return "(and (<= (root (fenv " + v + ")) " + top + ") (< (- 100000) (root (fenv " + v + "))) (>= (fid " + v + ") 0) (=> (= (fid " + v + ") 0) (= " + v + " nil_func)))"
 	}
 	return "true"
 }
@@ -370,7 +371,7 @@ func (c *Ctx) loadWith(memOf func(key string) string, addr string, t types.Type)
 		// build by store chain for small arrays
 		es := c.reg.SortOf(u.Elem())
 		if u.Len() <= 16 {
-			term := "((as const (Array Int " + es + ")) " + c.zero(u.Elem()) + ")"
+			term := c.zeroArrayConst(es, c.zero(u.Elem()))
 			for i := int64(0); i < u.Len(); i++ {
 				term = fmt.Sprintf("(store %s %d %s)", term, i, c.loadWith(memOf, fmt.Sprintf("(elem %s %d)", addr, i), u.Elem()))
 			}
@@ -480,4 +481,32 @@ func (c *Ctx) havocRegionOfArray(st *State, arr string, elem types.Type) {
 		old, nw := c.havocMem(st, key)
 		st.assume("(forall ((a Addr)) (! (=> (not (= (root a) (root " + arr + "))) (= (select " + nw + " a) (select " + old + " a))) :pattern ((select " + nw + " a))))")
 	}
+}
+
+// boxMem: the immutable memory holding boxed non-pointer dynamic values of interfaces.
+func (c *Ctx) boxMem(key string) string {
+	n := "box_" + sanitize(key)
+	c.reg.AddDecl("box:"+key, "(declare-const "+n+" "+c.boxSort(key)+")")
+	return n
+}
+
+func (c *Ctx) boxSort(key string) string {
+	parts := strings.SplitN(key, ":", 2)
+	return "(Array Addr " + parts[1] + ")"
+}
+
+func (c *Ctx) loadBox(st *State, addr string, t types.Type) T {
+	term := c.loadWith(c.boxMem, addr, t)
+	so := c.reg.SortOf(t)
+	name := c.define(st, "bx", so, term)
+	st.assume(c.wf(name, t, st.heapTop))
+	return T{S: name, So: so, Ty: t}
+}
+
+// zeroArrayConst: an array whose every element is the given zero term (declared once, axiomatised;
+// "(as const ...)" is avoided because cvc5 only accepts value literals there).
+func (c *Ctx) zeroArrayConst(elemSort, zero string) string {
+	n := "zeroarr_" + sanitize(elemSort)
+	c.reg.AddDecl("zeroarr:"+elemSort, "(declare-const "+n+" (Array Int "+elemSort+"))\n(assert (forall ((i Int)) (! (= (select "+n+" i) "+zero+") :pattern ((select "+n+" i)))))")
+	return n
 }
